@@ -14,7 +14,7 @@ import concurrent.futures, fcntl, hashlib, json, os, re, shutil, subprocess, sys
 HERE = os.path.dirname(os.path.abspath(__file__)); VERIF = os.path.dirname(HERE)
 CLANGXX = os.environ.get('VERIF_CLANGXX', 'clang++')
 BUILD_JOBS = int(os.environ.get('VERIF_FUZZ_BUILD_JOBS', '4'))          # the machine is shared: never more than 4 compilers
-MAX_PROCS = 8                                                            # fuzzing processes alive at the same time
+MAX_PROCS = max(1, min(8, int(os.environ.get('VERIF_FUZZ_PROCS', '8'))))   # fuzzing processes alive at the same time: 8 at most
 # UBSan: only null-pointer accesses / bounds terminate the run (they are failures the property names); every other category may print
 # and goes on.  bounds is compiled as non-recoverable; within the null category `&vector[0]` of an empty vector ("reference binding to
 # null pointer", all over the unchanged library, an observation for checks/c17.py too) has to stay recoverable, so the split is made at
